@@ -6,6 +6,7 @@ encoder/decoder pair must then agree on byte order and width and match the relea
 format (big-endian integer groups, little-endian 32-byte Ed25519)."""
 from ..terms import Const, Sym, App, TupleV, Obj, FuncV, mk_app, is_app, show, subterms
 from ..evalr import Ev, Policy
+from ..loader import AnalysisError
 from .. import session, groupmodel as gm
 from .c05 import conds_of, has_eq, has_ne
 
@@ -20,6 +21,40 @@ def width_forms(v):
         out.append(mk_app("math.ceil", (mk_app("Div", (b, Const(8))),)))
         out.append(mk_app("FloorDiv", (mk_app("Add", (b, Const(7))), Const(8))))
     return out
+
+
+def is_width(term, v, conds=()):
+    """Is `term` = size_bytes(v) = ceil(max(bit_length(v), 1) / 8)?  Known spellings are accepted
+    as they are; any other spelling is folded for every bit length 0..4224 on the paths whose
+    bit-length-only conditions hold for that length (form-independent finite case split)."""
+    if term is None:
+        return False
+    if term in width_forms(v):
+        return True
+    from ..terms import subst
+    from .. import refmodel
+    blt = App("bit_length", (v,))
+    if not any(x == blt for x in subterms(term)):
+        return False
+    blconds = [(t, p) for (t, p) in conds if any(x == blt for x in subterms(t))]
+    for b in range(0, 4225):
+        sub = {blt: Const(b)}
+        applies = True
+        for (t, p) in blconds:
+            try:
+                if bool(refmodel.eval_closed(subst(t, sub))) != p:
+                    applies = False
+                    break
+            except AnalysisError:
+                pass
+        if not applies:
+            continue
+        try:
+            if refmodel.eval_closed(subst(term, sub)) != (max(b, 1) + 7) // 8:
+                return False
+        except AnalysisError:
+            return False
+    return True
 
 
 def decoder_total(ctx, rule, inst, o, inp, allowed, site=None, outs=()):
@@ -55,7 +90,7 @@ def util(ctx, world, ev):
     # size_bytes
     outs = ev.run(szb, [maxval], [], world.static.fork())
     rets = session.rets(outs)
-    ok = len(outs) == 1 and len(rets) == 1 and rets[0].value in width_forms(maxval)
+    ok = len(outs) == len(rets) and len(rets) >= 1 and all(is_width(o.value, maxval, conds_of(o)) for o in rets)
     ctx.ob("K1-width", "size_bytes", ok, "size_bytes(v) = ceil(bit_length(v)/8) (at least 1)" if ok else
            "size_bytes is not ceil(bit_length/8): %s" % [show(o.value, maxdepth=6) for o in rets], (ut.relpath, szb.node.lineno, "size_bytes"))
     W = rets[0].value if rets else None
@@ -64,7 +99,7 @@ def util(ctx, world, ev):
     rets = session.rets(outs)
     ctx.require(rets, "number_to_bytes has no returning path")
     for o in rets:
-        ok = o.value == App("int2be", (num, W))
+        ok = is_app(o.value, "int2be") and o.value.args[0] == num and is_width(o.value.args[1], maxval, conds_of(o))
         ctx.ob("K1-encoder", "number_to_bytes", ok, "big-endian, exactly size_bytes(maxval) bytes: int2be(num, size_bytes(maxval))" if ok else
                "number_to_bytes returns %s, expected the big-endian encoding in size_bytes(maxval) bytes" % show(o.value, maxdepth=6), site)
         conds = conds_of(o)
@@ -78,7 +113,8 @@ def util(ctx, world, ev):
                    # the domain is 0 <= n: refusing negative numbers refuses nothing that has an encoding
                    (mk_app("LtE", (Const(0), num)), True), (mk_app("Lt", (num, Const(0))), False)}
         extra = [show(t, maxdepth=4) + "=" + str(p) for (t, p, _) in o.state.pc[len(world.static.pc):]
-                 if (t, p) not in allowed and not is_app(t, "isinstance") and not (is_app(t, "Eq", "NotEq") and any(is_app(a, "len") for a in t.args))]
+                 if (t, p) not in allowed and not is_app(t, "isinstance") and not (is_app(t, "Eq", "NotEq") and any(is_app(a, "len") for a in t.args))
+                 and any(x == num for x in subterms(t))]      # (a case split on maxval alone refuses no number)
         ctx.ob("K1-total", "number_to_bytes", not extra, "every 0 <= n <= maxval is encoded (no other condition on the returning path)" if not extra else
                "number_to_bytes also requires %s: some n <= maxval are refused" % extra, site)
     over = [o for o in outs if o.kind == "raise" and ((mk_app("Gt", (num, maxval)), True) in conds_of(o) or (mk_app("LtE", (num, maxval)), False) in conds_of(o)
@@ -116,7 +152,7 @@ def integer_group(ctx, world, ev):
             ctx.ob("K2-encoder-total", "%s.%s" % (gname, meth_enc), not extra, "every scalar in [0, q) is encoded" if not extra else
                    "the scalar encoder also requires %s: some scalars in [0, q) cannot be serialised" % extra, (g.cls.mod.relpath, 0, meth_enc))
             v = o.value
-            ok = is_app(v, "int2be") and v.args[0] == i and v.args[1] == wf and wf in width_forms(mod_sym)
+            ok = is_app(v, "int2be") and v.args[0] == i and v.args[1] == wf and is_width(wf, mod_sym, conds_of(o))
             ctx.ob("K2-encoder", "%s.%s" % (gname, meth_enc), ok,
                    "big-endian, exactly scalar_size_bytes = size_bytes(q) bytes" if ok else
                    "scalar encoder is %s, expected int2be(i, size_bytes(q)) with width == scalar_size_bytes" % show(v, maxdepth=5),
@@ -147,7 +183,7 @@ def integer_group(ctx, world, ev):
     wf = gm.attr_of(ev, g, "element_size_bytes", st)
     for o in rets:
         v = o.value
-        ok = is_app(v, "int2be") and v.args[0] == a and v.args[1] == wf and wf in width_forms(p)
+        ok = is_app(v, "int2be") and v.args[0] == a and v.args[1] == wf and is_width(wf, p, conds_of(o))
         ctx.ob("K3-encoder", "%s element to_bytes" % gname, ok, "big-endian, exactly element_size_bytes = size_bytes(p) bytes" if ok else
                "element encoder is %s, expected int2be(e, size_bytes(p)) with width == element_size_bytes" % show(v, maxdepth=5))
     # decoder = C05 (be2int + D1 + D2); restate the two facts K3 needs
@@ -238,10 +274,17 @@ def ed25519(ctx, world, ev):
             val = v.args[0].args[0]
             par = None
             for (t, p) in conds:
-                if is_app(t, "BitAnd") and Const(1) in t.args:
-                    xx = affine(t.args[0] if t.args[1] == Const(1) else t.args[1])
+                # the parity of x as a condition, in any spelling: x & 1, (x & 1) != 0, x % 2 == 1, ...
+                tt, pp = t, p
+                if is_app(tt, "Eq", "NotEq") and len(tt.args) == 2 and any(isinstance(a, Const) and a.v in (0, 1) and not isinstance(a.v, bool) for a in tt.args):
+                    c = [a for a in tt.args if isinstance(a, Const)][0]
+                    inner = [a for a in tt.args if a is not c][0]
+                    pp = p if ((c.v == 1) == (tt.f == "Eq")) else (not p)
+                    tt = inner
+                if (is_app(tt, "BitAnd") and Const(1) in tt.args) or (is_app(tt, "Mod") and tt.args[1] == Const(2)):
+                    xx = affine(tt.args[0] if tt.args[1] in (Const(1), Const(2)) else tt.args[1])
                     if xx == X:
-                        par = p
+                        par = pp
             if par is None:
                 # branch-free spelling, e.g. y | ((x & 1) << 255): decided by substituting both parities
                 from ..terms import subst
